@@ -48,30 +48,97 @@ def run(chk):
         chk.count('function-instances')
         return I.run(fn_, args, st if st is not None else State(), sub)
 
+    def helpers():
+        """the crate's private address builders, found by signature ((Page<S>, PageTableIndex) in either order -> Page<Size4KiB> or
+        *mut PageTable), not by name: each must produce the recursive address of one level for every page size it accepts"""
+        found = []
+        for n, f in I.fn.items():
+            if not n.startswith(R) or f['argc'] != 2:
+                continue
+            a = [f['locals'][1], f['locals'][2]]
+            roles = []
+            for t in a:
+                if t.get('k') == 'adt' and t.get('name') == PG:
+                    roles.append('page')
+                elif t.get('k') == 'adt' and t.get('name') == PTI:
+                    roles.append('index')
+                else:
+                    roles.append(None)
+            ret = f['locals'][0]
+            if sorted(map(str, roles)) != ['index', 'page']:
+                continue
+            if ret.get('k') == 'adt' and ret.get('name') == PG:
+                kind = 'page'
+            elif ret.get('k') == 'rawptr' and (ret.get('to') or {}).get('name') == TBL:
+                kind = 'ptr'
+            else:
+                continue
+            found.append((n, kind, roles, a[roles.index('page')]))
+        return found
+
     def ptrs():
         r = I.sym_value(adt(PTI), 'r')
-        for level, fnp, sizes in ((3, 'p3', ('Size4KiB', 'Size2MiB', 'Size1GiB')), (2, 'p2', ('Size4KiB', 'Size2MiB')), (1, 'p1', ('Size4KiB',))):
-            for sname in sizes:
-                sb = SIZES[sname]
+        levels_seen = set()
+        for fn_, kind, roles, pty in helpers():
+            generic = pty['args'] and pty['args'][0].get('k') == 'param'
+            short = fn_[len(R):]
+            lvl_of = None
+            for sname in ('Size4KiB', 'Size2MiB', 'Size1GiB'):
+                if not generic and (pty['args'][0].get('name') or '').rsplit('::', 1)[-1] != sname:
+                    continue
+                if lvl_of is not None and sname in {3: (), 2: ('Size1GiB',), 1: ('Size2MiB', 'Size1GiB')}[lvl_of]:
+                    continue        # the page has no table of that level (the trait bounds exclude the instantiation)
                 pg = I.sym_value(adt(PG, size_ty(sname)), 'pg')
                 pb = inner(pg).bits
-                want = []
-                for b in rec_addr(level, 'pg'):
-                    if isinstance(b, tuple) and b[0] == 'page':
-                        want.append(pb[b[1]])
-                    else:
-                        want.append(b)
-                want = BV(64, want)
-                for kind in ('page', 'ptr'):
-                    fn_ = R + '%s_%s' % (fnp, kind)
-                    o = r1(fn_, [pg, r], None, {'S': size_ty(sname)})
+                args = [pg if x == 'page' else r for x in roles]
+                o = r1(fn_, args, None, {g: size_ty(sname) for g in I.fn[fn_]['generics']})
+                got = None
+                if len(o) == 1 and o[0].kind == 'ret':
                     if kind == 'page':
-                        ok = len(o) == 1 and o[0].kind == 'ret' and same(inner(o[0].val), want)
-                    else:
-                        ok = len(o) == 1 and o[0].kind == 'ret' and isinstance(o[0].val, Ptr) and o[0].val.addr is not None and o[0].val.off is None and same(o[0].val.addr, want)
-                    chk.ob('recursive-address', '%s_%s<%s> = r x%d then the page\'s upper indices, sign-extended' % (fnp, kind, sname, level), ok, 'returns %r\n      expected %r' % (o, want), fn_site(I, fn_),
-                           sample=repr(o[0].val) if o else None)
-    chk.guard('recursive-address', 'pN_page / pN_ptr', ptrs)
+                        got = inner(o[0].val)
+                    elif isinstance(o[0].val, Ptr) and o[0].val.addr is not None and o[0].val.off is None:
+                        got = o[0].val.addr
+                match = None
+                for level in (3, 2, 1):
+                    want = BV(64, [pb[b[1]] if isinstance(b, tuple) and b[0] == 'page' else b for b in rec_addr(level, 'pg')])
+                    if got is not None and same(got, want):
+                        match = level
+                if lvl_of is None:
+                    lvl_of = match
+                ok = match is not None and match == lvl_of
+                if ok and kind == 'ptr':
+                    levels_seen.add(match)
+                chk.ob('recursive-address', 'address builder %s<%s> (%s): r repeated once per level, then the page\'s upper indices, sign-extended' % (short, sname, kind), ok,
+                       'returns %r\n      matches level %r' % (o, match), fn_site(I, fn_), sample=repr(o[0].val) if o else None)
+        return levels_seen
+
+    def walks():
+        """end to end, whatever helpers exist: every table the recursive mapper dereferences in any public operation is reached through an
+        address of the recursive form for the page (r repeated 3, 2, 1 times for the level-3, -2, -1 table), in that order"""
+        from . import c01
+        from .mapper import MapperLab
+        lab = MapperLab(chk)
+        n = 0
+        for size in ('Size4KiB', 'Size2MiB', 'Size1GiB'):
+            depth = {'Size4KiB': 3, 'Size2MiB': 2, 'Size1GiB': 1}[size]
+            for op, extra in c01.OPS:
+                try:
+                    fn_, pss = lab.run('recursive', size, op, extra)
+                except KeyError:
+                    continue
+                bad = None
+                for ps in pss:
+                    seq = [(s.level, s.by) for s in ps.steps if s.k == 'deref']
+                    want = [(lv, 'address') for lv in (3, 2, 1)[:depth]]
+                    if ps.problems or seq != want[:len(seq)]:
+                        bad = (seq, ps.problems)
+                        break
+                n += 1
+                chk.ob('recursive-address', 'RecursivePageTable::%s<%s>: tables are dereferenced only at the recursive addresses of levels 3, 2, 1 of the page, in that order' % (op, size),
+                       bool(pss) and bad is None, 'a path dereferences %r' % (bad,), fn_site(I, fn_))
+        chk.floor('recursive walks', n, 15)
+    chk.guard('recursive-address', 'walks of the public operations', walks)
+    chk.guard('recursive-address', 'private address builders', ptrs)
 
     def ctor():
         fn_ = RPT + "::<'a>::new"
